@@ -164,6 +164,9 @@ class State(state_machine.State, persistence.Savable):
     def interrupt(self, reason: Any) -> None:
         pass
 
+    def recall(self, reason: Any) -> None:
+        """Withdraw an interruption that has been delivered with `interrupt` but whose request was cancelled."""
+
 
 @auto_persist('args', 'kwargs')
 class Created(State):
@@ -299,6 +302,7 @@ class Waiting(State):
     DONE_CALLBACK = 'DONE_CALLBACK'
 
     _interruption = None
+    _recalled = None
 
     def __str__(self) -> str:
         state_info = super().__str__()
@@ -345,18 +349,34 @@ class Waiting(State):
             # already resumed (or interrupted): the step ends anyway and the pending interrupt action is run then
             return
         self._waiting_future.set_exception(reason)
+        self._interruption = reason  # delivered, not yet seen by execute()
+
+    def recall(self, reason: Any) -> None:
+        if self._interruption is reason:
+            # not yet seen by execute(): let execute() ignore it and keep waiting, on a fresh future
+            self._recalled = reason
+            future = self._waiting_future
+            if future.done() and not future.cancelled() and future.exception() is reason:
+                self._waiting_future = futures.Future()
 
     async def execute(self) -> State:  # type: ignore
-        future = self._waiting_future
-        try:
-            result = await future
-        except Interruption:
-            # Deal with the interruption (by raising) but make sure our internal
-            # state is back to how it was before the interruption so that we can be
-            # re-executed (a wake-up that arrived after the interruption has already done so)
-            if self._waiting_future is future:
-                self._waiting_future = futures.Future()
-            raise
+        while True:
+            future = self._waiting_future
+            try:
+                result = await future
+                break
+            except Interruption as interruption:
+                # Deal with the interruption (by raising) but make sure our internal
+                # state is back to how it was before the interruption so that we can be
+                # re-executed (a wake-up that arrived after the interruption has already done so)
+                self._interruption = None
+                if self._waiting_future is future:
+                    self._waiting_future = futures.Future()
+                if interruption is self._recalled:
+                    # the request was withdrawn (play() after pause()): keep waiting
+                    self._recalled = None
+                    continue
+                raise
 
         if result == NULL:
             next_state = self.create_state(ProcessState.RUNNING, self.done_callback)
